@@ -164,3 +164,189 @@ func isBuiltin(info *types.Info, call *ast.CallExpr, names ...string) bool {
 }
 
 var _ = strings.HasPrefix
+
+// lastWins: a scalar declared outside a loop, assigned inside it from the loop's element and read after
+// the loop holds the LAST element's value: as an attribute of the whole collection (the precision of a
+// decimal leaf-list) it is right only if all elements agree. Reported unless the loop body compares the
+// variable with the value it is about to take (an == / != between v and the same element expression,
+// conversions ignored), or the assignment is a plain search result (the loop breaks/returns right after).
+func lastWins(c *engine.Ctx, id string, pkgs []string, min int) {
+	o := c.Custom(id, "dataflow(last element wins)", "a scalar variable declared outside a loop, assigned in the loop from an expression of the loop's element, and read after the loop, is compared (== / !=) inside the loop with the value it is about to take — or the loop is left right after the assignment",
+		"one attribute for a whole list taken from its last element silently changes the other elements' meaning (decimal leaf-list [15/1, 225/2] stored with precision 2: 1.5 becomes 0.15)")
+	defer o.Done(min)
+	strip := func(e ast.Expr) string { // text without conversions/parens
+		for {
+			e = ast.Unparen(e)
+			if call, ok := e.(*ast.CallExpr); ok && len(call.Args) == 1 {
+				if id, ok := call.Fun.(*ast.Ident); ok {
+					switch id.Name {
+					case "uint8", "uint16", "uint32", "uint64", "int8", "int16", "int32", "int64", "int", "uint", "float32", "float64", "string":
+						e = call.Args[0]
+						continue
+					}
+				}
+			}
+			return types.ExprString(e)
+		}
+	}
+	for _, rel := range pkgs {
+		pkg := c.P.Pkg(rel)
+		if pkg == nil {
+			o.Undecided(rel, "package not loaded")
+			continue
+		}
+		info := pkg.TypesInfo
+		for _, fi := range c.P.FuncsOf(pkg) {
+			if fi.Decl == nil || fi.Decl.Body == nil {
+				continue
+			}
+			fn := fi
+			ast.Inspect(fi.Decl.Body, func(n ast.Node) bool {
+				rs, ok := n.(*ast.RangeStmt)
+				if !ok || rs.Value == nil && rs.Key == nil {
+					return true
+				}
+				loopVars := map[types.Object]bool{}
+				for _, e := range []ast.Expr{rs.Key, rs.Value} {
+					if idn, ok := e.(*ast.Ident); ok && idn.Name != "_" {
+						if obj := info.Defs[idn]; obj != nil {
+							loopVars[obj] = true
+						}
+					}
+				}
+				// variables derived from the loop variable by a type switch / assertion / := inside the body
+				ast.Inspect(rs.Body, func(m ast.Node) bool {
+					switch y := m.(type) {
+					case *ast.TypeSwitchStmt:
+						if as, ok := y.Assign.(*ast.AssignStmt); ok && len(as.Lhs) == 1 {
+							for _, cl := range y.Body.List {
+								if obj := info.Implicits[cl]; obj != nil {
+									loopVars[obj] = true
+								}
+							}
+						}
+					}
+					return true
+				})
+				mentionsLoopVar := func(e ast.Expr) bool {
+					found := false
+					ast.Inspect(e, func(m ast.Node) bool {
+						if idn, ok := m.(*ast.Ident); ok && loopVars[info.Uses[idn]] {
+							found = true
+						}
+						return !found
+					})
+					return found
+				}
+				type asg struct {
+					obj  types.Object
+					rhs  ast.Expr
+					stmt *ast.AssignStmt
+				}
+				var asgs []asg
+				var walk func(list []ast.Stmt)
+				leaves := map[*ast.AssignStmt]bool{} // followed by break/return in its block
+				walk = func(list []ast.Stmt) {
+					for i, st := range list {
+						if as, ok := st.(*ast.AssignStmt); ok && as.Tok == token.ASSIGN && len(as.Lhs) == len(as.Rhs) {
+							for k, l := range as.Lhs {
+								idn, ok := l.(*ast.Ident)
+								if !ok {
+									continue
+								}
+								obj, ok := info.Uses[idn].(*types.Var)
+								if !ok || obj.Pos() >= rs.Pos() && obj.Pos() <= rs.End() || obj.Pos() < fn.Decl.Pos() || obj.Pos() > fn.Decl.End() {
+									continue
+								}
+								if b, ok := obj.Type().Underlying().(*types.Basic); !ok || b.Info()&(types.IsNumeric|types.IsString) == 0 {
+									continue
+								}
+								if !mentionsLoopVar(as.Rhs[k]) {
+									continue
+								}
+								// self-referencing updates (x = x + e, max/min patterns) are accumulations
+								self := false
+								ast.Inspect(as.Rhs[k], func(m ast.Node) bool {
+									if i2, ok := m.(*ast.Ident); ok && info.Uses[i2] == obj {
+										self = true
+									}
+									return !self
+								})
+								if self {
+									continue
+								}
+								asgs = append(asgs, asg{obj, as.Rhs[k], as})
+								if i+1 < len(list) {
+									switch nx := list[i+1].(type) {
+									case *ast.ReturnStmt:
+										leaves[as] = true
+									case *ast.BranchStmt:
+										if nx.Tok == token.BREAK || nx.Tok == token.GOTO {
+											leaves[as] = true
+										}
+									}
+								}
+							}
+						}
+						ast.Inspect(st, func(m ast.Node) bool {
+							switch y := m.(type) {
+							case *ast.FuncLit:
+								return false
+							case *ast.BlockStmt:
+								if m != st {
+									walk(y.List)
+									return false
+								}
+							case *ast.CaseClause:
+								walk(y.Body)
+								return false
+							case *ast.CommClause:
+								walk(y.Body)
+								return false
+							}
+							return true
+						})
+					}
+				}
+				walk(rs.Body.List)
+				for _, a := range asgs {
+					// read after the loop?
+					readAfter := false
+					ast.Inspect(fn.Decl.Body, func(m ast.Node) bool {
+						if idn, ok := m.(*ast.Ident); ok && idn.Pos() > rs.End() && info.Uses[idn] == a.obj {
+							readAfter = true
+						}
+						return !readAfter
+					})
+					if !readAfter {
+						continue
+					}
+					o.Site(c.P.Pos(a.stmt.Pos()) + " " + a.obj.Name() + " in " + fn.Name())
+					o.Eval(1)
+					if leaves[a.stmt] {
+						continue
+					}
+					want := strip(a.rhs)
+					compared := false
+					ast.Inspect(rs.Body, func(m ast.Node) bool {
+						b, ok := m.(*ast.BinaryExpr)
+						if !ok || (b.Op != token.EQL && b.Op != token.NEQ) {
+							return true
+						}
+						x, y := strip(b.X), strip(b.Y)
+						if (x == a.obj.Name() && y == want) || (y == a.obj.Name() && x == want) {
+							compared = true
+						}
+						return !compared
+					})
+					if compared {
+						continue
+					}
+					o.Fail(&engine.Violation{Key: fn.Name() + "|" + a.obj.Name() + " keeps the last element's value", Pos: c.P.Pos(a.stmt.Pos()), Func: fn.Name(),
+						Msg: a.obj.Name() + " is assigned from " + types.ExprString(a.rhs) + " in every iteration and read after the loop: it holds the last element's value, and nothing in the loop checks that the elements agree"})
+				}
+				return true
+			})
+		}
+	}
+}
